@@ -9,7 +9,7 @@ EXPLANATION = ('POLARITY rule on every state-changing site: MH: the only store o
                's\' and U < min(1, n\'/n), candidate inside the tree replaced only under U < n\'\'/max(n\'+n\'\',1) (threshold proportional to n\'\'); negated forms (!(a <= b)), '
                'min/max based selection or partial_cmp().unwrap() on these sites are violations; float->float conversions on these paths checked by type. '
                'Numeric behaviour of burn kernels on NaN/inf (trusted table) and absence of hangs on adversarial targets are not decided.')
-FLOORS = {'obligations': 53}   # counted on the reference tree; fewer instantiated obligations is reported, never passed silently
+FLOORS = {'obligations': 56}   # counted on the reference tree; fewer instantiated obligations is reported, never passed silently
 TECHNIQUE = 'polarity analysis of accept conditions over value-flow terms (ordered-comparison true edge, sign of the candidate density term), selection-only rule'
 
 
@@ -35,6 +35,11 @@ def run(ctx):
     nuts(ctx)
     conversions(ctx)
     progress(ctx)
+    for nm, root, al in (('MHMarkovChain::step', ctx.anchor('mh', name='step', trait='core::MarkovChain', self_head='metropolis_hastings::MHMarkovChain'), {}),
+                         ('HMC::step', ctx.anchor('hmc', name='step', self_head='hmc::HMC', container='inherent'), {}),
+                         ('NUTSChain::step', ctx.anchor('nuts', name='step', self_head='nuts::NUTSChain', container='inherent'), {'numcast': 1})):
+        if root is not None:
+            narrowing_budget(ctx, 'C14', nm, [root], al, why='a narrowed log-density or energy can turn inf/NaN handling around (overflow to inf in f32, rounding to a boundary value); a conversion to a fixed narrower float type (or an f64 -> element-type read-back) on this path changes values for wider element types / back ends', sp=root['sp'])
     # "every state-changing site": the polarity rule above covers the anchored transitions; the frame rules show these are the
     # ONLY code that can change a chain's state (besides constructors / the seeding API)
     from . import C01, C02, C03
